@@ -570,6 +570,7 @@ func Run(c *hx.Ctx) {
 		"9999, 10000, 10001 and far beyond, the height measured by the harness on its own parse; within the limit the same pipeline, beyond it every entry point must refuse and an EPUB must keep its other chapters; " +
 		"the depth walk is compared at limits next to the height of every third generated document."
 	matchOps(c)
+	lostFamily(c)
 	for i, s := range fixed {
 		k := &kase{Stream: "fixed", Index: i, HTML: s}
 		c.Count("fixed")
